@@ -509,6 +509,11 @@ class M2Executor(Executor):
     def call(self, f, args, kwargs, st, fr, node):
         if isinstance(f, VOpaque):
             nm = self._callee_name(node) or 'call'
+            if self._callee_name(node) is None and '<computed-callee>' in self.spec.hooks:
+                # callee is an expression (table[...](..)): the task may give it a site contract
+                r = self.spec.hooks['<computed-callee>'](self, f, list(args), kwargs, st, fr, node)
+                if r is not None:
+                    return r
             return self.opaque_call(nm, list(args) + list(kwargs.values()), st, node=node, fterm=f)
         try:
             return Executor.call(self, f, args, kwargs, st, fr, node)
